@@ -114,6 +114,7 @@ struct World
   std::map<void*, int> objIndex;
   std::map<pthread_t, int> ids;
   std::vector<std::uint32_t> choices;
+  std::vector<std::vector<std::uint32_t>> alts;
   std::vector<Event> trace;
   std::vector<std::uint32_t> replay;
   std::size_t replayPos = 0;
@@ -297,6 +298,13 @@ void reschedule(Thr* me)
       else { W->dead = true; abandon(me, "DEADLOCK"); return; }
     }
     W->choices.push_back(static_cast<std::uint32_t>(tid) * 4 + static_cast<std::uint32_t>(kind));
+    {
+      std::vector<std::uint32_t> a;
+      for (int x : R) a.push_back(static_cast<std::uint32_t>(x) * 4);
+      for (int x : T) a.push_back(static_cast<std::uint32_t>(x) * 4 + 1);
+      if (g_opt.spuriousOneIn) for (int x : S) a.push_back(static_cast<std::uint32_t>(x) * 4 + 2);
+      W->alts.push_back(a);
+    }
     W->steps++;
     Thr* n = W->thr[tid];
     if (kind == 1)
@@ -414,6 +422,11 @@ int wake(pthread_cond_t* c, bool all)
     else if (W->useReplay) pick = sl[0];
     else pick = sl[rnd() % sl.size()];
     W->choices.push_back(static_cast<std::uint32_t>(pick->id) * 4 + 3);
+    {
+      std::vector<std::uint32_t> a;
+      for (Thr* t : sl) a.push_back(static_cast<std::uint32_t>(t->id) * 4 + 3);
+      W->alts.push_back(a);
+    }
     pick->pend = P_REACQ;
     pick->obj = pick->mtx;
     pick->timedOut = false;
@@ -465,6 +478,7 @@ bool run(const std::function<void()>& mainFn)
   // first scheduling decision: thread 0 is the only thread
   rlock();
   w->choices.push_back(0);
+  w->alts.push_back(std::vector<std::uint32_t>{0});
   w->steps++;
   sem_post(&t->sem);
   runlock();
@@ -488,6 +502,7 @@ void yield_point(const char* tag)
   runlock();
 }
 const std::vector<std::uint32_t>& choices() { static std::vector<std::uint32_t> e; return W ? W->choices : e; }
+const std::vector<std::vector<std::uint32_t>>& alternatives() { static std::vector<std::vector<std::uint32_t>> e; return W ? W->alts : e; }
 const std::vector<Event>& trace() { static std::vector<Event> e; return W ? W->trace : e; }
 bool deadlocked() { return W && W->dead; }
 bool stepLimit() { return W && W->limit; }
